@@ -62,6 +62,26 @@ def gen(rng, tier):
             c["kind"] += "/merge"
         c["max_lang"] = 400
         cases.append(c)
+    # automaton filters on the enumerator that handles filters correctly on the unchanged tree,
+    # with a falsy state name (0) and with a string state
+    for i in range(14 if tier == "quick" else 140):
+        c = EG.gen_case(rng, enum="bps", small=True)
+        g = c["grammar"]
+        g["kind"] = "cfg"
+        g.setdefault("max_depth", 3)
+        g.setdefault("min_var", 1)
+        dsl = {"prims": g["prims"], "request": g["request"], "const_types": [], "forbidden": []}
+        leaves = []
+        for b in D.BASES:
+            leaves += [t for t in D.terms(dsl, b, 1, rng, 8, allow_const=False) if t[0] == 0]
+        if not leaves:
+            continue
+        c["dfta_rejected"] = [rng.choice(leaves) for _ in range(rng.randint(1, 2))]
+        c["dfta_state"] = [0, 0, "q"][i % 3]
+        c["rejected"] = c["dfta_rejected"]
+        c["kind"] += "/dfta-filter"
+        c["max_lang"] = 400
+        cases.append(c)
     return cases
 
 
